@@ -505,6 +505,75 @@ func c10DuringRolloutDeploy(second string) *Scenario {
 	return sc
 }
 
+// c10HeldAcrossSplitChange: requests (with and without the cookie) are held by a pause while `rollout stop` /
+// `rollout set` / a rollout redeploy changes the split; released by resume they follow the split in force then.
+func c10HeldAcrossSplitChange(change string) *Scenario {
+	sc := &Scenario{Name: "C10-S requests held by a pause while the split changes: " + change, Horizon: 30 * time.Second}
+	const host = "a.example.com"
+	held := map[string]*ReqObs{}
+	sc.Run = func(w *World) {
+		held = map[string]*ReqObs{}
+		w.AddTarget("oa:80")
+		w.AddTarget("ra:80")
+		w.AddTarget("rb:80")
+		w.Deploy(deployArgs("s1", []string{"oa:80"}, []string{host}, nil))
+		w.RolloutDeploy("s1", []string{"ra:80"})
+		w.RolloutSet("s1", 0, []string{"v"})
+		w.Pause("s1", vD, vMaxPause)
+		var wg vsync.WaitGroup
+		for _, ck := range []string{"v", "w", ""} {
+			ck := ck
+			wg.Add(1)
+			vsched.GoTagged("client", func() {
+				defer wg.Done()
+				spec := ReqSpec{ID: "held-" + ck, Host: host}
+				if ck != "" {
+					spec.Cookie = "kamal-rollout=" + ck
+				}
+				r := w.Do(spec)
+				w.mu.Lock()
+				held[ck] = r
+				w.mu.Unlock()
+			})
+		}
+		time.Sleep(200 * time.Millisecond)
+		w.S.SetWindow(true)
+		switch change {
+		case "stop":
+			w.RolloutStop("s1")
+		case "set-allow-w":
+			w.RolloutSet("s1", 0, []string{"w"})
+		case "set-100":
+			w.RolloutSet("s1", 100, nil)
+		case "redeploy-rollout":
+			w.RolloutDeploy("s1", []string{"rb:80"})
+		}
+		w.Resume("s1")
+		wg.Wait()
+		w.S.SetWindow(false)
+	}
+	sc.Check = func(w *World) []Violation {
+		var vs []Violation
+		want := map[string]map[string]string{
+			"stop":             {"v": "oa:80", "w": "oa:80", "": "oa:80"},
+			"set-allow-w":      {"v": "oa:80", "w": "ra:80", "": "oa:80"},
+			"set-100":          {"v": "ra:80", "w": "ra:80", "": "oa:80"},
+			"redeploy-rollout": {"v": "rb:80", "w": "oa:80", "": "oa:80"},
+		}[change]
+		for _, ck := range []string{"v", "w", ""} {
+			r := held[ck]
+			if r == nil || !r.Done {
+				continue
+			}
+			if r.Status != 200 || r.ServedBy() != want[ck] {
+				vs = append(vs, Violation{"C10", "held-request-follows-a-superseded-split " + change, fmt.Sprintf("request with cookie value %q was held by a pause while `rollout %s` ran; released by resume it got %s, expected %s", ck, change, r.Summary(), want[ck])})
+			}
+		}
+		return vs
+	}
+	return sc
+}
+
 func checkC10(t *testing.T, job *Job, res *Result) {
 	tier := job.Tier
 	if job.Replay != nil {
@@ -526,6 +595,9 @@ func checkC10(t *testing.T, job *Job, res *Result) {
 		}
 		for _, c := range []string{"stop", "set-allow-w", "set-100"} {
 			scs = append(scs, c10DuringRolloutDeploy(c))
+		}
+		for _, c := range []string{"stop", "set-allow-w", "set-100", "redeploy-rollout"} {
+			scs = append(scs, c10HeldAcrossSplitChange(c))
 		}
 		b := Bounds{D: 2, S: 0}
 		if tier == "thorough" {
